@@ -174,7 +174,7 @@ fn send_unroutable_raw(raw_fd: libc::c_int, port: u16, bytes: &[u8]) -> bool {
 static PUMP_STARTED_MS: std::sync::atomic::AtomicU64 = std::sync::atomic::AtomicU64::new(0);
 const HANG_MS: u64 = 25_000;
 
-fn epoch_ms() -> u64 { SystemTime::now().duration_since(UNIX_EPOCH).unwrap().as_millis() as u64 }
+fn epoch_ms() -> u64 { crate::util::mono_ms() }
 fn call_begins() { PUMP_STARTED_MS.store(epoch_ms(), Ordering::SeqCst); }
 fn call_ended() { PUMP_STARTED_MS.store(0, Ordering::SeqCst); }
 
